@@ -246,6 +246,7 @@ Section Heap.
           -- rewrite Hperm. cbn [app]. rewrite Hp2. unfold h1. rewrite <- app_assoc. reflexivity.
           -- rewrite Hlen'. rewrite Hl2. cbn [length]. lia.
       + apply Nat.ltb_ge in Efull. assert (Hlk : length h = k) by lia.
+        replace (0 <? k)%nat with true by (symmetry; apply Nat.ltb_lt; exact Hk).
         specialize (Hheap Hlk).
         destruct h as [|b t]; [cbn [length] in Hlk; lia|].
         destruct (c_less cmp x b) eqn:Ex.
@@ -284,16 +285,19 @@ Section Heap.
              ++ rewrite Hlen'. cbn [length] in *. lia.
   Qed.
 
-  (* LIMIT k (k >= 1) through the heap: min(k, n) rows, in non-decreasing order, and every row
-     left out is at least as large as every row returned *)
-  Lemma topk_ok : forall k rows, (0 < k)%nat ->
+  (* LIMIT k through the heap, every k (k = 0: no row): min(k, n) rows, in non-decreasing order,
+     and every row left out is at least as large as every row returned *)
+  Lemma topk_ok : forall k rows,
     exists out rest, topk cmp k rows = TOk out /\
       Permutation (out ++ rest) rows /\
       length out = Nat.min k (length rows) /\
       StronglySorted le out /\
       (forall x y, In x out -> In y rest -> le x y).
   Proof.
-    intros k rows Hk.
+    intros k rows. destruct k as [|k'].
+    { exists [], rows. rewrite topk_limit0_empty_l. repeat split; try reflexivity; try constructor.
+      intros x y []. }
+    set (k := S k'). assert (Hk : (0 < k)%nat) by (unfold k; lia).
     destruct (topk_feed_ok k rows [] [] Hk) as [h' [D' [Hf [Hperm [Hlen Hdom]]]]].
     - cbn [length]. lia.
     - cbn [length]. intros. lia.
@@ -387,7 +391,8 @@ Section TopKExt.
         destruct (length (h ++ [x]) =? k)%nat; [|exact H1].
         rewrite Forall_forall in *. intros y Hy. apply H1.
         apply (Permutation_in _ (isort_perm (c_greater cmp2) (h ++ [x]))). exact Hy.
-      + destruct h as [|b t]; [split; [reflexivity|discriminate]|].
+      + destruct (0 <? k)%nat; [|apply IH; assumption].
+        destruct h as [|b t]; [split; [reflexivity|discriminate]|].
         inversion Hh as [|? ? Pb Pt]; subst.
         rewrite (c_less_agree x b Px Pb).
         destruct (c_less cmp2 x b).
@@ -408,19 +413,18 @@ Section TopKExt.
   Qed.
 End TopKExt.
 
-(* ORDER BY <distance> LIMIT k (k >= 1) in the executor model, all keys comparable: the ids
-   returned are min(k, n) rows in non-decreasing order of the f64 key, and every row left out
-   has a key at least as large as every row returned *)
+(* ORDER BY <distance> LIMIT k in the executor model, every k, no NaN key (NULL keys allowed,
+   they are the least): the ids returned are min(k, n) rows in non-decreasing order of the key,
+   and every row left out has a key at least as large as every row returned *)
 Lemma sql_topk_smallest_l : forall metric q rows k ids,
   (forall r, In r (keyed metric q rows) -> key_comparable (snd r) = true) ->
-  (0 < k)%Z ->
   sql_order metric q rows (Some k) = ROk ids ->
   exists out rest, ids = map fst out /\ Permutation (out ++ rest) (keyed metric q rows) /\
      length out = Nat.min (Z.to_nat k) (length rows) /\
      StronglySorted (cle row_cmp_rank) out /\
      (forall x y, In x out -> In y rest -> cle row_cmp_rank x y).
 Proof.
-  intros metric q rows k ids Hc Hk H. unfold sql_order in H.
+  intros metric q rows k ids Hc H. unfold sql_order in H.
   destruct (_ || _)%bool in H; [|discriminate].
   assert (Hext : topk row_cmp (Z.to_nat k) (keyed metric q rows) =
                  topk row_cmp_rank (Z.to_nat k) (keyed metric q rows)).
@@ -428,7 +432,7 @@ Proof.
     - intros x y Hx Hy. apply row_cmp_is_rank; assumption.
     - rewrite Forall_forall. exact Hc. }
   rewrite Hext in H.
-  destruct (topk_ok row_cmp_rank row_cmp_rank_preorder (Z.to_nat k) (keyed metric q rows) ltac:(lia))
+  destruct (topk_ok row_cmp_rank row_cmp_rank_preorder (Z.to_nat k) (keyed metric q rows))
     as [out [rest [Ht [Hperm [Hlen [Hs Hd]]]]]].
   rewrite Ht in H. inversion H; subst ids.
   exists out, rest. split; [reflexivity|]. split; [exact Hperm|]. split; [|split; [exact Hs|exact Hd]].
